@@ -219,7 +219,8 @@ name as written (under the file's prefix on the top level of an imported file) w
   * a definition of ONE name needs that name to be new (nothing visible is found under it),
   * a `var` definition needs ALL its names to be new,
   * a short definition of several names needs at least one new name; a name of it that exists on the same level is assigned
-    to and keeps its type (`defFact`, third part: theorem `C06.definition_keeps_the_type_of_an_existing_variable`).
+    to and keeps its type (`defFact`, third part: theorem `C06.definition_keeps_the_type_of_an_existing_variable`),
+  * NO NAME IS WRITTEN TWICE in one definition (`hasDupNames names = false`; fix ebdb224: `a, a := 1, 2` had been accepted).
 "New" is the parser's own lookup (`isNewVar`: `findVariable` finds nothing), so the theorem says what the lookup is used for,
 not what it finds - that is the visibility theorem above and the scope skeletons. -/
 theorem definitions_need_new_names (fuel : Nat) (ctx : Ctx) (s s' : PSt) (st : Stmt)
@@ -229,9 +230,10 @@ theorem definitions_need_new_names (fuel : Nat) (ctx : Ctx) (s s' : PSt) (st : S
         (defVars st)[i].name = (if ctx.global then prefixed pfx names[i].val else names[i].val) ∧ (defVars st)[i].global = ctx.global) ∧
       (names.length = 1 → ∀ t ∈ names, isNewVar ctx pfx t.val = true) ∧
       (short = false → ∀ t ∈ names, isNewVar ctx pfx t.val = true) ∧
-      (∃ t ∈ names, isNewVar ctx pfx t.val = true) := by
-  obtain ⟨pfx, names, short, h1, h2, h3, h4, h5, h6⟩ := def_varDefinition fuel ctx s st s' h
-  exact ⟨pfx, names, short, h1, h2, fun i a b => ⟨(h3 i a b).1, (h3 i a b).2.1⟩, h4, h5, h6⟩
+      (∃ t ∈ names, isNewVar ctx pfx t.val = true) ∧
+      hasDupNames names = false := by
+  obtain ⟨pfx, names, short, h1, h2, h3, h4, h5, h6, h7⟩ := def_varDefinition fuel ctx s st s' h
+  exact ⟨pfx, names, short, h1, h2, fun i a b => ⟨(h3 i a b).1, (h3 i a b).2.1⟩, h4, h5, h6, h7⟩
 
 /-- **A function is defined on the top level of a file, under a name no visible function has**: whenever the function-definition
     parser returns a statement, in any context, the context is the global scope (`program` on top of the scope stack) and the
